@@ -141,6 +141,9 @@ pub enum Deny {
     No,
     Default,
     Custom(u32),
+    /// `deny_unknown_fields = unknown_user_cb::<N>`: the callback returns the foreign `UserErr`,
+    /// which the derive hands to the container's error type in one step
+    CustomUser(u32),
 }
 
 #[derive(Clone, Debug, PartialEq)]
@@ -176,6 +179,8 @@ pub struct FieldDef {
     pub skip: bool,
     pub default: Dflt,
     pub missing_fn: Option<u32>,
+    /// the `missing_field_error` function returns the foreign `UserErr` instead of the error type
+    pub missing_user: bool,
     pub conv: Conv,
     pub map: Option<u32>,
     /// field-level `error = SimErrB`
@@ -191,6 +196,7 @@ impl FieldDef {
             skip: false,
             default: Dflt::No,
             missing_fn: None,
+            missing_user: false,
             conv: Conv::No,
             map: None,
             error_b: false,
@@ -267,47 +273,100 @@ pub struct Catalogue {
     pub programs: Vec<Program>,
 }
 
-/// Split an identifier into words: on `_` and on lower→Upper boundaries. The generator only
-/// produces identifiers for which this is unambiguous (letters only, no acronyms, no digits).
+/// Split an identifier into words the way `rename_all = camelCase` is documented to (the word
+/// boundaries of convert_case 0.6 `Boundary::defaults()` that can occur in an identifier):
+/// `_` separates (and is dropped); a boundary lies between lower→Upper, between a letter and a
+/// digit in either direction, and before the last capital of a run of capitals that is followed
+/// by a lower-case letter (`HTTPServer` = HTTP + Server). Written independently of that crate; a
+/// unit test below compares the two on the identifier shapes the catalogue uses.
 pub fn words(ident: &str) -> Vec<String> {
+    fn up(c: char) -> bool {
+        let (u, l): (String, String) = (c.to_uppercase().collect(), c.to_lowercase().collect());
+        u != l && c.to_string() == u
+    }
+    fn lo(c: char) -> bool {
+        let (u, l): (String, String) = (c.to_uppercase().collect(), c.to_lowercase().collect());
+        u != l && c.to_string() == l
+    }
+    fn dg(c: char) -> bool {
+        c.is_ascii_digit()
+    }
+    let cs: Vec<char> = ident.chars().collect();
     let mut out: Vec<String> = vec![];
     let mut cur = String::new();
-    let mut prev_lower = false;
-    for c in ident.chars() {
+    for i in 0..cs.len() {
+        let c = cs[i];
         if c == '_' {
-            if !cur.is_empty() {
-                out.push(std::mem::take(&mut cur));
-            }
-            prev_lower = false;
+            out.push(std::mem::take(&mut cur));
             continue;
         }
-        if c.is_uppercase() && prev_lower && !cur.is_empty() {
+        let mut split = false;
+        if i >= 1 {
+            let p = cs[i - 1];
+            split |= (lo(p) && up(c)) || (up(p) && dg(c)) || (dg(p) && up(c)) || (dg(p) && lo(c)) || (lo(p) && dg(c));
+            if i + 1 < cs.len() {
+                split |= up(p) && up(c) && lo(cs[i + 1]);
+            }
+        }
+        if split {
             out.push(std::mem::take(&mut cur));
         }
-        prev_lower = c.is_lowercase();
         cur.push(c);
     }
-    if !cur.is_empty() {
-        out.push(cur);
-    }
+    out.push(cur);
     out
 }
 
 pub fn camel(ident: &str) -> String {
     let mut s = String::new();
     for (i, w) in words(ident).iter().enumerate() {
-        let lw = w.to_lowercase();
         if i == 0 {
-            s.push_str(&lw);
+            s.push_str(&w.to_lowercase());
         } else {
-            let mut cs = lw.chars();
+            let mut cs = w.chars();
             if let Some(f) = cs.next() {
                 s.extend(f.to_uppercase());
-                s.push_str(cs.as_str());
+                s.push_str(&cs.as_str().to_lowercase());
             }
         }
     }
     s
+}
+
+#[cfg(test)]
+mod camel_tests {
+    use convert_case::{Case, Casing};
+    #[test]
+    fn agrees_with_convert_case_on_catalogue_identifier_shapes() {
+        let cat = crate::catalogue::catalogue(1, 40);
+        let uni = crate::catalogue::uniform(1, 40);
+        let mut idents: Vec<String> = vec![];
+        for c in [&cat, &uni] {
+            for t in &c.types {
+                match &t.kind {
+                    crate::desc::TypeKind::Struct { fields, .. } => idents.extend(fields.iter().map(|f| f.ident.clone())),
+                    crate::desc::TypeKind::Tagged { variants, .. } => {
+                        for v in variants {
+                            idents.push(v.ident.clone());
+                            if let Some(fs) = &v.fields {
+                                idents.extend(fs.iter().map(|f| f.ident.clone()));
+                            }
+                        }
+                    }
+                    crate::desc::TypeKind::UnitEnum { variants, .. } => idents.extend(variants.iter().map(|v| v.ident.clone())),
+                    _ => {}
+                }
+            }
+        }
+        for extra in ["line_2a", "x1y", "sha256sum", "ipv4_addr", "field_1", "HTTPServer", "IOError", "ABc", "aB1C", "a__b", "trailing_", "Größe_MAX", "ÉTAT_Civil"] {
+            idents.push(extra.to_string());
+        }
+        assert!(idents.len() > 100);
+        for id in idents {
+            let id = id.strip_prefix("r#").unwrap_or(&id).to_string();
+            assert_eq!(super::camel(&id), id.to_case(Case::Camel), "identifier {id:?}");
+        }
+    }
 }
 
 /// The documented precedence: rename > rename_all > identifier.
